@@ -181,10 +181,13 @@ pub fn fmt_parts(kind: &str, p: &NumberParts) -> String {
         p.raw_dimensions.as_ref().map(fmt_dim).unwrap_or_else(|| "none".into()))
 }
 
+/// side channel after a tab (not part of the line the model is compared with): the text the user sees
+fn shown(p: &NumberParts) -> String { format!("\ttext={}", hex(&p.format("n u w"))) }
+
 pub fn canon_parts(q: &Query, r: &Result<QueryReply, QueryError>) -> String {
     match r {
-        Ok(QueryReply::Number(p)) => fmt_parts("number", p),
-        Ok(QueryReply::Conversion(c)) => fmt_parts("conv", &c.value),
+        Ok(QueryReply::Number(p)) => fmt_parts("number", p) + &shown(p),
+        Ok(QueryReply::Conversion(c)) => fmt_parts("conv", &c.value) + &shown(&c.value),
         _ => canon(q, r),
     }
 }
